@@ -217,8 +217,11 @@ class ElDesc(object):
 def gen_eldesc(rng, name, counter, depth=0, parent=None, prefixes=("r", "q", "hd", "ns0", "ns1", "ns2")):
     uris = ["urn:x:a", "urn:x:b", "urn:fam:ns0", "urn:x:c"]
     r = rng.random()
-    if parent is not None and parent.mode == "prefix" and r < 0.3:
+    if parent is not None and parent.mode in ("prefix", "inherit") and r < 0.3:
         d = ElDesc(name, "inherit", parent.prefix, parent.uri)
+    elif parent is not None and parent.mode in ("prefix", "inherit") and r < 0.42:
+        # re-binds the prefix its parent is named with to another namespace
+        d = ElDesc(name, "prefix", parent.prefix, rng.choice([u for u in uris if u != parent.uri]))
     elif r < 0.55:
         d = ElDesc(name, "prefix", rng.choice(prefixes), rng.choice(uris))
     elif r < 0.75:
@@ -244,6 +247,30 @@ def gen_eldesc(rng, name, counter, depth=0, parent=None, prefixes=("r", "q", "hd
     elif rng.random() < 0.75:
         d.text = rng.choice(["t", "some text", "42", "ünï", " lead", "x y"])
     return d
+
+
+def gen_rebind_chain(rng, name, counter):
+    """A ready-made element three deep in which the innermost child re-binds the
+    prefix its parent is NAMED with (declared further up) to another namespace:
+    <p:a xmlns:p="U1"><p:b><p:c xmlns:p="U2"/></p:b></p:a>.  Promotion must leave that
+    declaration where it is."""
+    uris = ["urn:x:a", "urn:x:b", "urn:fam:ns0", "urn:x:c"]
+    p = rng.choice(["r", "q", "hd", "ns0", "ns1"])
+    u1 = rng.choice(uris)
+    u2 = rng.choice([u for u in uris if u != u1])
+    counter[0] += 3
+    base = name.split("_")[0]
+    c = ElDesc("%s_k%d" % (base, counter[0]), "prefix", p, u2, text=rng.choice([None, "t", "x y"]))
+    if rng.random() < 0.4:
+        c.kids.append(ElDesc("%s_k%d" % (base, counter[0] - 1), "inherit", p, u2, text="in"))
+        c.text = None
+    b = ElDesc("%s_k%d" % (base, counter[0] - 2), "inherit", p, u1, kids=[c])
+    if rng.random() < 0.5:
+        b.attrs.append(("xsitype", p, u1, "T%d" % counter[0]))
+    a = ElDesc(name, "prefix", p, u1, kids=[b])
+    if rng.random() < 0.3:
+        a.attrs.append(("plain", "at%d" % counter[0], "v"))
+    return a
 
 
 def build_el(d):
@@ -406,7 +433,14 @@ def gen_case(seed, idx):
         for _ in range(rng.choice([1, 1, 2])):
             counter[0] += 1
             c.headers.append(gen_eldesc(rng, "hdr%d" % counter[0], counter))
-    c.wsdl = F.render_ops(S, [op])
+    rng2 = random.Random("C05r/%d/%d" % (seed, idx))      # separate stream: the cases above stay as they were
+    if rng2.random() < 0.2:
+        counter[0] += 1
+        c.headers.insert(rng2.randrange(len(c.headers) + 1), gen_rebind_chain(rng2, "hdr%d" % counter[0], counter))
+    R = F.Renderer(S)
+    R.local_tns = rng2.random() < 0.3
+    c.local_tns = R.local_tns
+    c.wsdl = F.render_ops(S, [op], R)
     return c
 
 
